@@ -3,11 +3,16 @@
 package measure
 
 import (
+	"bytes"
 	"context"
 	"errors"
 	"os"
+	"runtime"
 	"sort"
+	"strconv"
+	"sync"
 	"sync/atomic"
+	"time"
 
 	"github.com/apache/skywalking-banyandb/api/common"
 	"github.com/apache/skywalking-banyandb/banyand/internal/storage"
@@ -387,3 +392,136 @@ func (v *V5Table) NextEpoch() uint64 { return v.epoch }
 
 // PartDir is the directory of a file part.
 func (v *V5Table) PartDir(id uint64) string { return partPath(v.tst.root, id) }
+
+// v5Ctx is the context of a query that its client cancels while the block loaders of queryResult.Pull are at work.
+// Every block loader looks at the context once, right when it starts; the harness parks it there (inside Done) until
+// the gate opens, so "a loader is still running" is a fact the harness knows and not a matter of timing. The context
+// is cancelled when the cancelAt-th loader has had its (uncancelled) look; cancelAt 0 = cancelled before Pull.
+type v5Ctx struct {
+	context.Context
+	done      chan struct{}
+	gate      chan struct{}
+	owner     int64
+	cancelAt  int
+	arrived   int
+	parked    int
+	mu        sync.Mutex
+	cancelled bool
+	open      bool
+}
+
+func v5Goid() int64 {
+	var buf [64]byte
+	b := buf[:runtime.Stack(buf[:], false)]
+	b = bytes.TrimPrefix(b, []byte("goroutine "))
+	id, _ := strconv.ParseInt(string(b[:bytes.IndexByte(b, ' ')]), 10, 64)
+	return id
+}
+
+func (c *v5Ctx) cancelLocked() {
+	if !c.cancelled {
+		c.cancelled = true
+		close(c.done)
+	}
+}
+
+func (c *v5Ctx) Done() <-chan struct{} {
+	if v5Goid() == c.owner {
+		return c.done
+	}
+	c.mu.Lock()
+	if c.cancelled {
+		c.mu.Unlock()
+		return c.done
+	}
+	c.arrived++
+	if c.arrived == c.cancelAt {
+		// this loader saw the context alive; the client cancels right after its look, while it is parked
+		c.cancelLocked()
+	}
+	c.parked++
+	c.mu.Unlock()
+	never := make(chan struct{})
+	<-c.gate
+	c.mu.Lock()
+	c.parked--
+	c.mu.Unlock()
+	return never
+}
+
+func (c *v5Ctx) Err() error {
+	c.mu.Lock()
+	defer c.mu.Unlock()
+	if c.cancelled {
+		return context.Canceled
+	}
+	return nil
+}
+
+// V5CancelOutcome is what the harness learns from one cancelled query.
+type V5CancelOutcome struct {
+	Err string
+	// Unfinished: block loaders that Pull had started and that had not finished when Pull returned.
+	Unfinished int
+	Loaders    int
+	Rows       int
+}
+
+// ReadCancelled evaluates the same full scan as Read, but the client's context is cancelled while the block loaders
+// of queryResult.Pull are at work (see v5Ctx); the result is pulled once and released, as a client does after an
+// error. Pull returning while a loader it started is still parked is a positive event; the gate opens when Pull has
+// returned or, failing that, after wait (Pull is then — correctly — waiting for its loaders).
+func (w *V5View) ReadCancelled(sids []uint64, minTS, maxTS int64, cancelAt int, wait time.Duration) V5CancelOutcome {
+	pp, _ := w.snp.getParts(nil, storage.NewBypassCache(), minTS, maxTS)
+	ss := make([]common.SeriesID, len(sids))
+	for i := range sids {
+		ss[i] = common.SeriesID(sids[i])
+	}
+	m := &measure{pm: protector.Nop{}}
+	c := &v5Ctx{Context: context.Background(), done: make(chan struct{}), gate: make(chan struct{}), owner: v5Goid(), cancelAt: cancelAt}
+	var result queryResult
+	result.ctx = context.TODO()
+	qo := queryOptions{minTimestamp: minTS, maxTimestamp: maxTS}
+	qo.FieldProjection = []string{"v"}
+	if err := m.searchBlocks(context.TODO(), &result, ss, pp, qo); err != nil {
+		panic(err)
+	}
+	result.ctx = c
+	result.orderByTS = true
+	result.ascTS = true
+	out := V5CancelOutcome{Loaders: len(result.data)}
+	if cancelAt == 0 {
+		c.cancelLocked()
+	}
+	returned, opened := make(chan struct{}), make(chan struct{})
+	go func() {
+		select {
+		case <-returned:
+		case <-time.After(wait):
+		}
+		c.mu.Lock()
+		c.open = true
+		c.mu.Unlock()
+		close(c.gate)
+		close(opened)
+	}()
+	r := result.Pull()
+	c.mu.Lock()
+	if !c.open {
+		out.Unfinished = c.parked
+	}
+	c.mu.Unlock()
+	close(returned)
+	<-opened
+	if out.Unfinished > 0 {
+		// only after a violation: give the stray loaders time to end before their cursors go back to the pool
+		time.Sleep(100 * time.Millisecond)
+	}
+	if r != nil && r.Error != nil {
+		out.Err = r.Error.Error()
+	} else if r != nil {
+		out.Rows = len(r.Timestamps)
+	}
+	result.Release()
+	return out
+}
